@@ -325,16 +325,16 @@ func (m *BatchMon) OnEvent(c *eng.Ctx, ms eng.MState, ev *eng.Event) eng.MState 
 		case "cfg:GetBatchConcurrency":
 			if len(ev.Results) > 0 {
 				s.conc = ev.Results[0]
-				chk("C08.R6", "config-read", cfgRecv(ev) != nil && cfgRecv(ev).Contains(m.Life.Node), "batch concurrency is not read from the node being run")
+				chk("C08.R6,C19.R7", "config-read", cfgRecv(ev) != nil && cfgRecv(ev).Contains(m.Life.Node), "batch concurrency is not read from the node being run")
 			}
 		case "cfg:GetBatchErrorHandling":
-			chk("C08.R6", "config-read", cfgRecv(ev) != nil && cfgRecv(ev).Contains(m.Life.Node), "batch error handling is not read from the node being run")
+			chk("C08.R6,C19.R7", "config-read", cfgRecv(ev) != nil && cfgRecv(ev).Contains(m.Life.Node), "batch error handling is not read from the node being run")
 		case "pool.New":
 			s.poolEvents = true
 			if len(ev.Results) > 0 {
 				s.pool = ev.Results[0]
 			}
-			chk("C08.R4", "pool-size", len(ev.Args) == 1 && s.conc != nil && ev.Args[0] == s.conc, "the worker pool is not sized by the node's configured batch concurrency (got "+prettyArgs(ev.Args)+")")
+			chk("C08.R4,C19.R7", "pool-size", len(ev.Args) == 1 && s.conc != nil && ev.Args[0] == s.conc, "the worker pool is not sized by the node's configured batch concurrency (got "+prettyArgs(ev.Args)+")")
 			chk("C08.R5", "dispatch", m.Case.Conc, "a worker pool is used although the configured concurrency is <= 0 (sequential execution required)")
 		case "pool.Submit":
 			s.poolEvents = true
